@@ -27,6 +27,11 @@ type c16Case struct {
 	Path   string    `json:"path"` // "", -full-path, -rel-path
 	Aggr   bool      `json:"aggressive"`
 	Filter string    `json:"filter_re,omitempty"`
+	// FS: the dump references a generated file-system layout (seed, index) that pp sees through GOROOT/GOPATH,
+	// so that local paths, relative paths and every location class (colours) are exercised.
+	FS     bool  `json:"fs,omitempty"`
+	FSSeed int64 `json:"fs_seed,omitempty"`
+	FSIdx  int   `json:"fs_idx,omitempty"`
 }
 
 // expected block, computed from the library's snapshot by the rules the property states.
@@ -98,7 +103,7 @@ func (c *c16Case) input() []byte {
 
 func (c *c16Case) baseArgs() []string {
 	var a []string
-	if c.Path != "-rel-path" {
+	if c.Path != "-rel-path" && !c.FS {
 		a = append(a, "-rebase=false")
 	}
 	if c.Path != "" {
@@ -140,9 +145,30 @@ func splitBlocks(out []byte) (blocks [][]string, stray []string) {
 }
 
 func c16Eval(r *core.Run, c *c16Case) {
+	var env []string
+	opts := c16Opts(c.Path)
+	if c.FS {
+		dir := fsDir("c16", c.FSIdx)
+		defer os.RemoveAll(dir)
+		rr := core.NewRand(c.FSSeed, 161, uint64(c.FSIdx))
+		l := gen.GenFS(rr, dir, &gen.FSCfg{Decoys: true})
+		c.Dump = l.DumpFor(rr)
+		gp := l.LocalGOPATHs
+		if len(gp) == 0 {
+			gp = []string{filepath.Join(os.Getenv("VERIF_WORK"), "go")} // pp's default: $HOME/go
+		}
+		env = []string{"GOROOT=" + l.LocalGOROOT, "GOPATH=" + strings.Join(l.LocalGOPATHs, ":")}
+		opts = &stack.Opts{LocalGOROOT: l.LocalGOROOT, LocalGOPATHs: gp, NameArguments: true, GuessPaths: true, AnalyzeSources: true}
+	}
 	in := c.input()
-	report := func(key, what string) { r.Violation(key, what, "console", c) }
-	s, _, _, _ := scanAll(in, c16Opts(c.Path))
+	report := func(key, what string) {
+		c2 := *c
+		if c.FS {
+			c2.Dump = nil
+		}
+		r.Violation(key, what, "console", &c2)
+	}
+	s, _, _, _ := scanAll(in, opts)
 	if s == nil {
 		report("nosnapshot", "generated input not parsed")
 		return
@@ -162,7 +188,7 @@ func c16Eval(r *core.Run, c *c16Case) {
 		}
 	}
 	base := c.baseArgs()
-	plain := runPP(in, nil, append(append([]string{}, base...), "-no-color")...)
+	plain := runPP(in, env, append(append([]string{}, base...), "-no-color")...)
 	r.Eval(1)
 	r.Count("pp_runs", 1)
 	if plain.TimedOut {
@@ -235,7 +261,7 @@ func c16Eval(r *core.Run, c *c16Case) {
 		}
 	}
 	// colour independence
-	col := runPP(in, nil, append(append([]string{}, base...), "-force-color")...)
+	col := runPP(in, env, append(append([]string{}, base...), "-force-color")...)
 	r.Eval(1)
 	r.Count("pp_runs", 1)
 	if stripped := ansiRe.ReplaceAll(col.Stdout, nil); !bytes.Equal(stripped, plain.Stdout) || col.Exit != 0 {
@@ -249,8 +275,8 @@ func c16Eval(r *core.Run, c *c16Case) {
 	}
 	// filter / match complementarity
 	if c.Filter != "" {
-		fo := runPP(in, nil, append(append([]string{}, base...), "-no-color", "-f", c.Filter)...)
-		mo := runPP(in, nil, append(append([]string{}, base...), "-no-color", "-m", c.Filter)...)
+		fo := runPP(in, env, append(append([]string{}, base...), "-no-color", "-f", c.Filter)...)
+		mo := runPP(in, env, append(append([]string{}, base...), "-no-color", "-m", c.Filter)...)
 		r.Eval(2)
 		r.Count("pp_runs", 2)
 		if fo.Exit != 0 || mo.Exit != 0 {
@@ -306,6 +332,11 @@ func genC16(r *core.Run, i int) *c16Case {
 			}
 		}
 	}
+	if i%6 == 5 {
+		c.Race, c.FS, c.FSSeed, c.FSIdx = nil, true, r.Seed, i
+		c.Dump = nil
+		c.Path = []string{"-full-path", "-rel-path", ""}[(i/6)%3]
+	}
 	if i%2 == 0 {
 		// a regexp drawn from what headers contain
 		c.Filter = []string{"select", "chan receive|IO wait", "locked", "^1: ", "minutes", ".", "Created by", "^[2-9]", "zzzz", "Race write", "running|finished", `\[`}[rr.Intn(12)]
@@ -321,8 +352,11 @@ func runC16(r *core.Run) {
 	core.Parallel(n, workers(), func(i int) {
 		c := genC16(r, i)
 		c16Eval(r, c)
+		if c.Dump == nil && c.Race == nil {
+			return
+		}
 		r.Distinct(core.Hash64(c.input()) ^ uint64(i%6))
-		r.Mark("flag_sets", fmt.Sprintf("path=%q aggressive=%v race=%v filter=%v", c.Path, c.Aggr, c.Race != nil, c.Filter != ""))
+		r.Mark("flag_sets", fmt.Sprintf("path=%q aggressive=%v race=%v filter=%v fs=%v", c.Path, c.Aggr, c.Race != nil, c.Filter != "", c.FS))
 		if i < 2 {
 			out := runPP(c.input(), nil, append(c.baseArgs(), "-no-color")...)
 			r.Sample(map[string]any{"input": b2s(c.input(), 600), "pp_stdout": b2s(out.Stdout, 900), "flags": c.baseArgs()})
